@@ -131,6 +131,20 @@ def load_prop(pid):
     return importlib.import_module('fxpverif.props.%s' % pid.lower())
 
 
+def run_repo_tests(case, ctx):
+    """run one of the repository's test files in-process, under the installed monitor and judges"""
+    import contextlib
+    import io
+    import pytest
+    path = os.path.join(repo_path(), 'tests', case['file'])
+    before = ctx.evaluations
+    buf = io.StringIO()
+    with contextlib.redirect_stdout(buf), contextlib.redirect_stderr(buf):
+        rc = pytest.main([path, '-q', '-p', 'no:cacheprovider', '-x' if False else '-q', '--no-header', '-W', 'ignore', '--rootdir', repo_path()])
+    ctx.notes['repo_tests:%s:pytest_rc=%s' % (case['file'], int(rc))] += 1
+    ctx.notes['repo_tests_events_judged'] += ctx.evaluations - before
+
+
 # ---------------------------------------------------------------------------------- one shard
 def run_shard(pid, tier, seed, shard, nshards, out, only_case=None):
     t0 = time.time()
@@ -157,7 +171,17 @@ def run_shard(pid, tier, seed, shard, nshards, out, only_case=None):
         if only_case is not None:
             cases = [only_case]
         else:
-            cases = (c for i, c in enumerate(prop.cases(tier, seed)) if i % nshards == shard)
+            def all_cases():
+                for c in prop.cases(tier, seed):
+                    yield c
+                # thorough tier: the repository's own tests are one more workload for the same (event-driven) oracles
+                if tier == 'thorough' and getattr(prop, 'REPO_TESTS', True):
+                    tdir = os.path.join(repo_path(), 'tests')
+                    if os.path.isdir(tdir):
+                        for fn in sorted(os.listdir(tdir)):
+                            if fn.startswith('test_') and fn.endswith('.py') and fn != 'test_performace.py':
+                                yield {'k': '__repotests__', 'file': fn}
+            cases = (c for i, c in enumerate(all_cases()) if i % nshards == shard)
         budget = getattr(prop, 'SHARD_BUDGET_S', {}).get(tier)
         truncated = 0
         for case in cases:
@@ -168,7 +192,10 @@ def run_shard(pid, tier, seed, shard, nshards, out, only_case=None):
             mon.current_case = case
             n_cases += 1
             try:
-                prop.run_case(case, ctx)
+                if isinstance(case, dict) and case.get('k') == '__repotests__':
+                    run_repo_tests(case, ctx)
+                else:
+                    prop.run_case(case, ctx)
             except Exception as e:
                 # the workload treats exceptions it expects itself; anything escaping is either a
                 # violation recorded by a judge already or a harness problem -> report as note
